@@ -30,6 +30,9 @@ type runCase struct {
 	NoSumm   bool        `json:"noTestSummary"`
 	Seed     int64       `json:"randSeed"`
 	Sound    bool        `json:"soundOnly"`
+	// MayReject: the specification calls this program ill-formed; nothing is claimed when the parser rejects it,
+	// but if the parser accepts it the run must still never go wrong (C02 quantifies over accepted programs)
+	MayReject bool `json:"mayReject"`
 	Expect   struct {
 		Effects     []any    `json:"effects"`
 		Result      []string `json:"result"`
@@ -158,6 +161,10 @@ func stageRun(raw json.RawMessage) Result {
 	src := pieces(c.Src)
 	o := execute(src, strs(c.Inputs), c.Events, c.StopAt, c.FailFast, c.NoSumm, c.Seed)
 	obs := map[string]any{"src": src, "result": o.Result, "effects": o.Effects}
+	if o.ParseErr != nil && c.MayReject {
+		obs["verdict"] = "rejected"
+		return Result{OK: true, Obs: obs}
+	}
 	if o.ParseErr != nil {
 		obs["parseErr"] = o.ParseErr.Error()
 		return Result{OK: false, Obs: obs, Diff: "specification says this program is well-formed, parser rejects it: " + firstLine(o.ParseErr.Error())}
